@@ -19,6 +19,30 @@
 (* (ImplAgrees...), a difference is a candidate defect which the check then    *)
 (* has to meet on the real code before it says anything.                       *)
 (*                                                                            *)
+(* Block size (v2). A block is not only a set of keys: it has a NUMBER OF      *)
+(* RECORDS, and the code moves records in batches - the block write database  *)
+(* flushes every WriteLimit (128) batched records, the permanent merge hands   *)
+(* over batches of MergeLimit (333) records of the temp database. The size     *)
+(* classes (SizeClasses) place that number below / exactly at / just above one *)
+(* limit and at several batches; `Reads.fl` says that EVERY filler record of a *)
+(* committed block is readable (and none of a removed block), and the batch    *)
+(* arithmetic of both loops is transcribed (WriteBatchSizes, MergeBatchSizes)  *)
+(* and compared with "every record is carried by exactly one batch".           *)
+(*                                                                            *)
+(* Memory (v2). What a node keeps in memory only is part of the implementation *)
+(* level state: `pcache` (the permanent store's state cache, filled by READS   *)
+(* that fall through to the permanent store and by mergeTempCaches, purged by  *)
+(* a merge of the key, emptied by Reopen) and `tcache` (which temps carry the  *)
+(* state cache of their block write database; a temp reloaded after Reopen has *)
+(* none). Reading is a first-class step (ReadAll / NoRead): a behaviour says   *)
+(* where reads happen, and ImplState(k) - what Center.State answers from       *)
+(* temps, cache and storage - is compared with RState(k) (ImplStateAgrees) and *)
+(* across Reopen and merges (MemoryInvisible). `eff` (what the last action did  *)
+(* to the memory) is part of the view, so that the exhaustive runs keep one    *)
+(* path per distinct EFFECT on the memory (a merge that had to invalidate a    *)
+(* cached key is a different state from one that had nothing to invalidate),   *)
+(* not only per distinct result.                                               *)
+(*                                                                            *)
 (* Binding A: the output variable `step` carries the action, its arguments    *)
 (* and the answer of every read after it; behaviours (-simulate) and the      *)
 (* shortest path to every distinct state (exhaustive run, `path`) are         *)
@@ -36,27 +60,45 @@ CONSTANTS Keys,        \* ordinary state keys, e.g. {"a", "b"}
           EmitStep,    \* FALSE: `step` is not computed (runs that only check the model)
           WithReopen,  \* TRUE: the Reopen action is enabled (C20, C26)
           WithCenter,  \* FALSE: only the permanent store is driven (C26): no RemoveBlocks
-          Repaired     \* FALSE: the two searching reads are transcribed as the pinned tree has them;
+          Repaired,    \* FALSE: the two searching reads are transcribed as the pinned tree has them;
                        \* TRUE: as fixes/C19-*.diff leaves them
+          Contents,    \* the key sets a block may write (a subset of SUBSET AllKeys)
+          SizeClasses, \* size classes a WriteBlock may choose from, "s" = no filler (see ClassTarget)
+          MaxBig,      \* how many blocks of a behaviour may have a class other than "s"
+          WriteLimit,  \* batch size of the block write database (block_write.go: 1<<7)
+          MergeLimit,  \* batch size of the permanent merge (perm_leveldb.go: batchlimit 333)
+          CacheChoices,\* subset of BOOLEAN: may the block write database have a state cache (SetStateCache)
+          ReadOptional,\* TRUE: after an action the reads may also be left out (NoRead)
+          Purge        \* TRUE: a merge removes the merged keys from the permanent store's state cache (the tree);
+                       \* FALSE: it relies on mergeTempCaches alone (the sibling that C26's repair removed)
 
 SUF == "SUF"     \* the suffrage state (isaac.SuffrageStateKey); a block that writes it carries a suffrage proof
 POL == "POL"     \* the network policy state (isaac.NetworkPolicyStateKey)
 AllKeys == Keys \cup {SUF, POL}
 PoolKinds == {"proposal", "operation", "expel", "ballot"}
+AllContents == SUBSET AllKeys            \* cfg: Contents <- AllContents
 
-VARIABLES chain,      \* sequence of committed blocks [st: SUBSET AllKeys, g: generation]; height of chain[i] is i-1
+VARIABLES chain,      \* sequence of committed blocks [st: SUBSET AllKeys, g: generation, f, x: filler states and
+                      \* extra known operations (block size), wc: written with a state cache]; height of chain[i] is i-1
           tempsFrom,  \* chain[tempsFrom..] are temp databases, chain[1..tempsFrom-1] is in the permanent store
           gens,       \* height -> how many times a block of that height has been written
           nwrites,
           pool,       \* set of <<kind, n>> put into the pool database (C20)
+          nbig,       \* number of blocks written with a size class other than "s"
+          fills,      \* <<h, g, f>> of every block with filler states ever written (removed ones included)
+          tcache,     \* memory: heights of the temps that carry a state cache
+          pcache,     \* memory: key -> the state (Ref) held by the permanent store's state cache, <<>> = none
+          eff,        \* what the last action did to the memory: [drop: keys whose cache entry it invalidated,
+                      \* tc: a temp with a state cache was merged or forgotten]
           pending,    \* TRUE: an action has been taken and ReadAll (a read of every kind) comes next
           nsteps,
           lastact,    \* output only
           path,       \* output only
           step        \* output only
-avars == <<chain, tempsFrom, gens, nwrites, pool>>
-vars == <<chain, tempsFrom, gens, nwrites, pool, pending, nsteps, lastact, path, step>>
-view == <<avars, pending>>
+avars == <<chain, tempsFrom, gens, nwrites, pool, nbig, fills>>
+mvars == <<tcache, pcache, eff>>
+vars == <<chain, tempsFrom, gens, nwrites, pool, nbig, fills, tcache, pcache, eff, pending, nsteps, lastact, path, step>>
+view == <<avars, mvars, pending>>
 
 Max(S) == CHOOSE x \in S : \A y \in S : y <= x
 Last == Len(chain) - 1                      \* last height, -1 when nothing is committed
@@ -84,6 +126,11 @@ RPolicy == Ref(NewestWith(POL, Len(chain)))
 InStateOps == UNION {{<<i - 1, chain[i].g, k>> : k \in chain[i].st} : i \in 1..Len(chain)}
 KnownOps == {<<i - 1, chain[i].g>> : i \in 1..Len(chain)}
 
+(* block size: every filler state of a committed block is readable (State, StateBytes, its in-state *)
+(* operation), none of a block that was removed; <<height, generation, readable filler states>>    *)
+InChain(h, g) == h \in 0..Last /\ chain[h + 1].g = g
+Fillers == {<<x[1], x[2], IF InChain(x[1], x[2]) THEN x[3] ELSE 0>> : x \in fills}
+
 Reads == [st   |-> [k \in AllKeys |-> RState(k)],
           bm   |-> [i \in 1..(MaxLen + 1) |-> RBlockMap(i - 1)],
           lbm  |-> RLastBlockMap,
@@ -93,7 +140,66 @@ Reads == [st   |-> [k \in AllKeys |-> RState(k)],
           pol  |-> RPolicy,
           iso  |-> InStateOps,
           kno  |-> KnownOps,
+          fl   |-> Fillers,
           pool |-> pool]
+
+-----------------------------------------------------------------------------
+(* Block size. Records of a block as the generator of the binding builds it: a keyed state is one  *)
+(* state record and two in-state operation records, a filler state one state record and one        *)
+(* in-state operation record, 2 + x known operation records; these go through the block write      *)
+(* database's batch (Batched). Block map, the two suffrage proof keys and the merged marker are     *)
+(* put one by one; together they are what the permanent merge iterates (TempRecords).               *)
+Batched(s, f, x) == 3 * Cardinality(s) + 2 * f + 2 + x
+Fixed(s) == 2 + (IF SUF \in s THEN 2 ELSE 0)
+TempRecords(s, f, x) == Batched(s, f, x) + Fixed(s)
+
+(* a size class names a number of records relative to one of the two limits *)
+ClassTarget(c) ==
+  CASE c = "w-"  -> [lim |-> "w", n |-> WriteLimit - 1]
+    [] c = "w="  -> [lim |-> "w", n |-> WriteLimit]
+    [] c = "w+"  -> [lim |-> "w", n |-> WriteLimit + 1]
+    [] c = "ww=" -> [lim |-> "w", n |-> 2 * WriteLimit]
+    [] c = "w3"  -> [lim |-> "w", n |-> 3 * WriteLimit + 5]
+    [] c = "m-"  -> [lim |-> "m", n |-> MergeLimit - 1]
+    [] c = "m="  -> [lim |-> "m", n |-> MergeLimit]
+    [] c = "m+"  -> [lim |-> "m", n |-> MergeLimit + 1]
+    [] c = "mm=" -> [lim |-> "m", n |-> 2 * MergeLimit]
+    [] c = "mm+" -> [lim |-> "m", n |-> 2 * MergeLimit + 1]
+    [] c = "m3"  -> [lim |-> "m", n |-> 3 * MergeLimit + 7]
+AllClasses == {"s", "w-", "w=", "w+", "ww=", "w3", "m-", "m=", "m+", "mm=", "mm+", "m3"}
+ASSUME SizeClasses \subseteq AllClasses
+
+(* filler states and extra known operations that bring a block with keys s to its class *)
+Room(s, c) == LET t == ClassTarget(c)
+              IN t.n - Batched(s, 0, 0) - (IF t.lim = "m" THEN Fixed(s) ELSE 0)
+FillOf(s, c) == IF c = "s" THEN 0 ELSE Room(s, c) \div 3
+XopsOf(s, c) == IF c = "s" THEN 0 ELSE Room(s, c) - 2 * FillOf(s, c)
+
+(* Transcription of the two batch loops: the sizes of the batches handed to the storage.            *)
+(* storage/leveldb/db.go batchAddFunc + batchDoneFunc: put, then hand the batch over when it holds  *)
+(* `limit` records; what is left goes with Write().                                                  *)
+WriteBatchSizes(n) ==
+  LET full == n \div WriteLimit
+      rest == n % WriteLimit
+  IN [i \in 1..(full + (IF rest > 0 THEN 1 ELSE 0)) |-> IF i <= full THEN WriteLimit ELSE rest]
+(* perm_leveldb.go mergeTempDatabaseFromLeveldb: BEFORE a record is put a batch that holds `limit`   *)
+(* records is handed to a worker and a new one started; what is left is handed over after the loop.  *)
+MergeBatchSizes(n) ==
+  IF n = 0 THEN <<>>
+  ELSE LET full == (n - 1) \div MergeLimit
+       IN [i \in 1..(full + 1) |-> IF i <= full THEN MergeLimit ELSE n - full * MergeLimit]
+RECURSIVE SumSeq(_)
+SumSeq(q) == IF q = <<>> THEN 0 ELSE Head(q) + SumSeq(Tail(q))
+(* every record is carried by exactly one batch, no batch is empty or above its limit *)
+BatchesCarryEveryRecord ==
+  \A i \in 1..Len(chain) :
+     LET b == chain[i]
+         wb == WriteBatchSizes(Batched(b.st, b.f, b.x))
+         mb == MergeBatchSizes(TempRecords(b.st, b.f, b.x))
+     IN /\ SumSeq(wb) = Batched(b.st, b.f, b.x)
+        /\ SumSeq(mb) = TempRecords(b.st, b.f, b.x)
+        /\ \A j \in 1..Len(wb) : wb[j] \in 1..WriteLimit
+        /\ \A j \in 1..Len(mb) : mb[j] \in 1..MergeLimit
 
 -----------------------------------------------------------------------------
 (* Implementation level: how center.go answers the two searching reads from  *)
@@ -145,8 +251,40 @@ ImplAgreesProofByBlockHeight == \A h \in 0..MaxLen : ImplProofByBlockHeight(h) =
 ImplLastHeightIsLast == RLastSuffrageProof # <<>> => ImplLastProofLastHeight = Last
 
 -----------------------------------------------------------------------------
-(* Every action is followed by ReadAll: the binding performs every read after every step. *)
-(* (`step` is computed there, once per step, not once per candidate successor.)           *)
+(* Implementation level: Center.State(k). The newest temp that has the key answers; else the      *)
+(* permanent store: its state cache if it holds the key (perm_base.go stateFromCache), else the    *)
+(* storage, and what was loaded is put into the cache (setStateToCache).                            *)
+NoCache == [k \in AllKeys |-> <<>>]
+NoEff == [drop |-> {}, tc |-> FALSE]
+TempNewest(k) == LET S == {i \in TempIdx : HasKey(i, k)} IN IF S = {} THEN 0 ELSE Max(S)
+PermNewest(k) == NewestWith(k, tempsFrom - 1)
+ImplState(k) == IF TempNewest(k) # 0 THEN Ref(TempNewest(k))
+                ELSE IF pcache[k] # <<>> THEN pcache[k] ELSE Ref(PermNewest(k))
+(* the cache after Center.State has been called for every key *)
+CacheAfterReads == [k \in AllKeys |-> IF TempNewest(k) = 0 /\ pcache[k] = <<>> THEN Ref(PermNewest(k)) ELSE pcache[k]]
+
+(* the cache after chain[from..to] have been merged one after the other (MergeTempDatabase):       *)
+(* mergeTempCaches puts the states of a temp that carries a state cache (newer wins), then - Purge *)
+(* - every state key of the merged temp is removed from the cache                                   *)
+CacheAfterMerge(from, to) ==
+  [k \in AllKeys |->
+     LET M == {i \in from..to : HasKey(i, k)}
+         C == {i \in M : (i - 1) \in tcache}
+     IN IF M = {} THEN pcache[k]
+        ELSE IF Purge THEN <<>>
+        ELSE IF C # {} THEN Ref(Max(C)) ELSE pcache[k]]
+MergeEff(from, to) == [drop |-> {k \in AllKeys : pcache[k] # <<>> /\ \E i \in from..to : HasKey(i, k)},
+                       tc   |-> \E i \in from..to : (i - 1) \in tcache]
+
+(* C19 at the implementation level: what Center.State answers is the newest committed state *)
+ImplStateAgrees == \A k \in AllKeys : ImplState(k) = RState(k)
+(* a cached state is the stored one *)
+CacheFresh == \A k \in AllKeys : pcache[k] \in {<<>>, Ref(PermNewest(k))}
+
+-----------------------------------------------------------------------------
+(* An action is followed by ReadAll (the binding performs every read and compares it) or, with  *)
+(* ReadOptional, by NoRead (nothing is read: the memory stays as the action left it).            *)
+(* (`step` is computed there, once per step, not once per candidate successor.)                  *)
 Record(act) == /\ ~pending
                /\ nsteps < MaxSteps
                /\ nsteps' = nsteps + 1
@@ -155,51 +293,87 @@ Record(act) == /\ ~pending
                /\ path' = IF KeepPath THEN Append(path, act) ELSE path
                /\ step' = ""
 
+Emit(rd) == IF ~EmitStep THEN "-" ELSE
+            ToJson([a |-> lastact, n |-> nsteps, len |-> Len(chain), tf |-> tempsFrom, rd |-> rd,
+                    r |-> Reads, ilh |-> ImplLastProofLastHeight,
+                    mem |-> [pc |-> {k \in AllKeys : pcache[k] # <<>>}, tc |-> tcache, eff |-> eff],
+                    path |-> IF rd /\ KeepPath THEN Append(path, [name |-> "Read"]) ELSE path])
+
 ReadAll == /\ pending
            /\ pending' = FALSE
-           /\ step' = IF ~EmitStep THEN "-" ELSE
-                      ToJson([a |-> lastact, n |-> nsteps, len |-> Len(chain), tf |-> tempsFrom,
-                              r |-> Reads, ilh |-> ImplLastProofLastHeight, path |-> path])
-           /\ UNCHANGED <<avars, nsteps, lastact, path>>
+           /\ step' = Emit(TRUE)
+           /\ pcache' = CacheAfterReads
+           /\ path' = IF KeepPath THEN Append(path, [name |-> "Read"]) ELSE path
+           /\ UNCHANGED <<avars, tcache, eff, nsteps, lastact>>
+
+NoRead == /\ ReadOptional
+          /\ pending
+          /\ pending' = FALSE
+          /\ step' = Emit(FALSE)
+          /\ UNCHANGED <<avars, mvars, nsteps, lastact, path>>
 
 Init == /\ chain = <<>>
         /\ tempsFrom = 1
         /\ gens = [h \in 0..(MaxLen - 1) |-> 0]
         /\ nwrites = 0
         /\ pool = {}
+        /\ nbig = 0
+        /\ fills = {}
+        /\ tcache = {}
+        /\ pcache = NoCache
+        /\ eff = NoEff
         /\ pending = FALSE
         /\ nsteps = 0
         /\ lastact = [name |-> "Init"]
         /\ path = <<>>
         /\ step = ""
 
-(* NewLeveldbBlockWrite(h) -> SetStates/SetOperations/SetBlockMap/SetSuffrageProof -> Write -> *)
-(* Center.MergeBlockWriteDatabase. A block that writes SUF carries the proof of the next       *)
-(* suffrage height.                                                                             *)
-WriteBlock(s) ==
+BlockAct(name, h, g, s, c, wc) ==
+  [name |-> name, h |-> h, g |-> g, st |-> s,
+   sh |-> IF SUF \in s THEN Cardinality(SufIdx) ELSE -1,
+   cls |-> c, f |-> FillOf(s, c), x |-> XopsOf(s, c), wc |-> wc,
+   nb |-> Batched(s, FillOf(s, c), XopsOf(s, c)), nt |-> TempRecords(s, FillOf(s, c), XopsOf(s, c)),
+   wb |-> Len(WriteBatchSizes(Batched(s, FillOf(s, c), XopsOf(s, c)))),
+   mb |-> Len(MergeBatchSizes(TempRecords(s, FillOf(s, c), XopsOf(s, c))))]
+
+(* NewLeveldbBlockWrite(h) -> [SetStateCache] -> SetStates/SetOperations/SetBlockMap/SetSuffrageProof *)
+(* -> Write -> Center.MergeBlockWriteDatabase. A block that writes SUF carries the proof of the next   *)
+(* suffrage height. c is the block's size class, wc whether the block write database has a state cache. *)
+WriteBlock(s, c, wc) ==
   /\ Len(chain) < MaxLen
   /\ nwrites < MaxWrites
+  /\ c # "s" => nbig < MaxBig
   /\ LET h == Len(chain)
          g == gens[h] + 1
+         f == FillOf(s, c)
      IN /\ gens' = [gens EXCEPT ![h] = g]
-        /\ chain' = Append(chain, [st |-> s, g |-> g])
+        /\ chain' = Append(chain, [st |-> s, g |-> g, f |-> f, x |-> XopsOf(s, c), wc |-> wc])
         /\ nwrites' = nwrites + 1
-        /\ UNCHANGED <<tempsFrom, pool>>
-        /\ Record([name |-> "Write", h |-> h, g |-> g, st |-> s,
-                   sh |-> IF SUF \in s THEN Cardinality(SufIdx) ELSE -1])
+        /\ nbig' = IF c = "s" THEN nbig ELSE nbig + 1
+        /\ fills' = IF f > 0 THEN fills \cup {<<h, g, f>>} ELSE fills
+        /\ tcache' = IF wc THEN tcache \cup {h} ELSE tcache \ {h}
+        /\ eff' = NoEff
+        /\ UNCHANGED <<tempsFrom, pool, pcache>>
+        /\ Record(BlockAct("Write", h, g, s, c, wc))
 
 (* Center.mergePermanent: the oldest temp goes to the permanent store while two remain *)
 MergeOne ==
   /\ NTemps >= 2
   /\ tempsFrom' = tempsFrom + 1
-  /\ UNCHANGED <<chain, gens, nwrites, pool>>
+  /\ pcache' = CacheAfterMerge(tempsFrom, tempsFrom)
+  /\ eff' = MergeEff(tempsFrom, tempsFrom)
+  /\ tcache' = tcache \ {tempsFrom - 1}
+  /\ UNCHANGED <<chain, gens, nwrites, pool, nbig, fills>>
   /\ Record([name |-> "MergeOne"])
 
 (* Center.MergeAllPermanent: all but the newest *)
 MergeAll ==
   /\ NTemps >= 2
   /\ tempsFrom' = Len(chain)
-  /\ UNCHANGED <<chain, gens, nwrites, pool>>
+  /\ pcache' = CacheAfterMerge(tempsFrom, Len(chain) - 1)
+  /\ eff' = MergeEff(tempsFrom, Len(chain) - 1)
+  /\ tcache' = tcache \cap {Len(chain) - 1}
+  /\ UNCHANGED <<chain, gens, nwrites, pool, nbig, fills>>
   /\ Record([name |-> "MergeAll"])
 
 (* Center.RemoveBlocks(h): only blocks that are still temps can be removed *)
@@ -208,21 +382,30 @@ RemoveBlocks(h) ==
   /\ h <= Last + 1           \* (one height beyond the chain is enough to see the refusal)
   /\ LET ok == NTemps > 0 /\ h >= tempsFrom - 1 /\ h <= Last
      IN /\ chain' = IF ok THEN SubSeq(chain, 1, h) ELSE chain
-        /\ UNCHANGED <<tempsFrom, gens, nwrites, pool>>
+        /\ tcache' = IF ok THEN tcache \cap (0..(h - 1)) ELSE tcache
+        /\ eff' = [drop |-> {}, tc |-> ok /\ (tcache \cap (h..Last)) # {}]
+        /\ UNCHANGED <<tempsFrom, gens, nwrites, pool, nbig, fills, pcache>>
         /\ Record([name |-> "Remove", h |-> h, ok |-> ok])
 
 (* C26: the permanent store alone - MergeTempDatabase of the next block *)
-PermMerge(s) ==
+PermMerge(s, c, wc) ==
   /\ ~WithCenter
   /\ Len(chain) < MaxLen
+  /\ c # "s" => nbig < MaxBig
   /\ LET h == Len(chain)
+         f == FillOf(s, c)
      IN /\ gens' = [gens EXCEPT ![h] = 1]
-        /\ chain' = Append(chain, [st |-> s, g |-> 1])
+        /\ chain' = Append(chain, [st |-> s, g |-> 1, f |-> f, x |-> XopsOf(s, c), wc |-> wc])
         /\ tempsFrom' = Len(chain) + 2
         /\ nwrites' = nwrites + 1
-        /\ UNCHANGED pool
-        /\ Record([name |-> "PermMerge", h |-> h, g |-> 1, st |-> s,
-                   sh |-> IF SUF \in s THEN Cardinality(SufIdx) ELSE -1])
+        /\ nbig' = IF c = "s" THEN nbig ELSE nbig + 1
+        /\ fills' = IF f > 0 THEN fills \cup {<<h, 1, f>>} ELSE fills
+        /\ pcache' = [k \in AllKeys |-> IF k \notin s THEN pcache[k]
+                                        ELSE IF Purge THEN <<>>
+                                        ELSE IF wc THEN <<h, 1>> ELSE pcache[k]]
+        /\ eff' = [drop |-> {k \in s : pcache[k] # <<>>}, tc |-> wc]
+        /\ UNCHANGED <<pool, tcache>>
+        /\ Record(BlockAct("PermMerge", h, 1, s, c, wc))
 
 (* C20: pool database contents *)
 PoolPut(kind) ==
@@ -230,29 +413,40 @@ PoolPut(kind) ==
   /\ Cardinality(pool) < MaxPool
   /\ LET n == Cardinality({x \in pool : x[1] = kind}) + 1
      IN /\ pool' = pool \cup {<<kind, n>>}
-        /\ UNCHANGED <<chain, tempsFrom, gens, nwrites>>
+        /\ eff' = NoEff
+        /\ UNCHANGED <<chain, tempsFrom, gens, nwrites, nbig, fills, tcache, pcache>>
         /\ Record([name |-> "PoolPut", kind |-> kind, n |-> n])
 
-(* C20: close storage, permanent store, pool and Center; open them again *)
+(* C20: close storage, permanent store, pool and Center; open them again: nothing that lives in *)
+(* memory only survives (the state cache is empty, reloaded temps carry no state cache)          *)
 Reopen ==
   /\ WithReopen
+  /\ tcache' = {}
+  /\ pcache' = NoCache
+  /\ eff' = [drop |-> {k \in AllKeys : pcache[k] # <<>>}, tc |-> tcache # {}]
   /\ UNCHANGED avars
   /\ Record([name |-> "Reopen"])
 
-Next == \/ WithCenter /\ \E s \in SUBSET AllKeys : WriteBlock(s)
+Next == \/ WithCenter /\ \E s \in Contents, c \in SizeClasses, wc \in CacheChoices : WriteBlock(s, c, wc)
         \/ WithCenter /\ MergeOne
         \/ WithCenter /\ MergeAll
         \/ \E h \in 0..(MaxLen - 1) : RemoveBlocks(h)
-        \/ \E s \in SUBSET AllKeys : PermMerge(s)
+        \/ \E s \in Contents, c \in SizeClasses, wc \in CacheChoices : PermMerge(s, c, wc)
         \/ \E kind \in PoolKinds : PoolPut(kind)
         \/ Reopen
         \/ ReadAll
+        \/ NoRead
 Spec == Init /\ [][Next]_vars
 
 -----------------------------------------------------------------------------
 TypeOK == /\ tempsFrom \in 1..(Len(chain) + 1)
           /\ Len(chain) <= MaxLen
           /\ \A i \in 1..Len(chain) : chain[i].st \subseteq AllKeys /\ chain[i].g \in 1..gens[i - 1]
+          /\ tcache \subseteq {i - 1 : i \in TempIdx}
+          /\ nbig <= MaxBig
+
+(* CONSTRAINT of the instances that are about the memory, not about removal *)
+NoRemove == lastact.name # "Remove"
 
 (* consequences of the statement that every back-end has to share *)
 ReadsConsistent ==
@@ -266,6 +460,11 @@ ReadsConsistent ==
 
 (* C19: merging into the permanent store, and C20: reopening, change no read *)
 MergeAndReopenInvisible == [][chain' = chain /\ pool' = pool => Reads' = Reads]_vars
+
+(* the same at the implementation level: merges, reads and a reopen change what lives in memory, *)
+(* never what Center.State answers                                                                *)
+ImplStates == [k \in AllKeys |-> ImplState(k)]
+MemoryInvisible == [][chain' = chain => ImplStates' = ImplStates]_vars
 
 (* C19, last sentence: while blocks are only written and merged the height of the state *)
 (* returned for a key never decreases                                                    *)
